@@ -3561,4 +3561,379 @@ theorem vts_decodes {v : PVal} {s : Bytes} (hw : wfScalar v = true) (h : vts v =
   | bytes t => simp only [vts, Option.some.injEq] at h; subst h; exact C12.roundtrip t
   | _ => simp [wfScalar] at hw
 
+/-! ### Part 9: the `# dns_resolver "…";` statement stays on one line -/
+
+/-- every character of the literal written for a scalar is printable ASCII (a line feed in configured text is written `\n`) -/
+theorem vts_printable {v : PVal} {l : Bytes} (h : vts v = some l) : ∀ c ∈ l, 0x20 ≤ c ∧ c < 0x7f := by
+  cases v with
+  | int n =>
+    simp only [vts, Option.some.injEq] at h
+    subst h
+    intro c hc
+    simp only [List.mem_append, List.mem_singleton] at hc
+    rcases hc with (rfl | hc) | rfl
+    · decide
+    · simp only [decBytes, List.mem_map] at hc
+      obtain ⟨ch, hch, rfl⟩ := hc
+      have hd := Nat.isDigit_of_mem_toDigits (by decide) (by decide) hch
+      simp only [Char.isDigit, Bool.and_eq_true, decide_eq_true_eq, ge_iff_le] at hd
+      have h1 : (48 : Nat) ≤ ch.toNat := UInt32.le_iff_toNat_le.mp hd.1
+      have h2 : ch.toNat ≤ 57 := UInt32.le_iff_toNat_le.mp hd.2
+      have hm : (ch.toNat.toUInt8).toNat = ch.toNat := by simp [Nat.toUInt8]; omega
+      constructor
+      · rw [UInt8.le_iff_toNat_le, hm]; simpa using (by omega : 32 ≤ ch.toNat)
+      · rw [UInt8.lt_iff_toNat_lt, hm]; simpa using (by omega : ch.toNat < 127)
+    · decide
+  | str t => simp only [vts, Option.some.injEq] at h; subst h; exact C12.valueToString_printable' t
+  | bytes t => simp only [vts, Option.some.injEq] at h; subst h; exact C12.valueToString_printable' t
+  | none => simp only [vts, Option.some.injEq] at h; subst h; decide
+  | _ => simp [vts] at h
+
+theorem vts_noLF {v : PVal} {l : Bytes} (h : vts v = some l) : l.contains 10 = false := by
+  cases hc : l.contains 10 with
+  | false => rfl
+  | true =>
+    have := (vts_printable h 10 (by simpa using hc)).1
+    exact absurd this (by decide)
+
+theorem col_append (x y : PForest) : (x ++ y).commentsOneLine = (x.commentsOneLine && y.commentsOneLine) := by
+  show (PForest.append x y).commentsOneLine = _
+  induction x with
+  | nil => simp [PForest.append, PForest.commentsOneLine]
+  | tok o t r ih => simp [PForest.append, PForest.commentsOneLine, ih]
+  | node l k r _ ih => simp [PForest.append, PForest.commentsOneLine, ih, Bool.and_assoc]
+
+theorem col_flatten (fs : List PForest) (h : ∀ f ∈ fs, f.commentsOneLine = true) :
+    (PForest.flatten fs).commentsOneLine = true := by
+  induction fs with
+  | nil => rfl
+  | cons f fs ih => rw [flatten_cons, col_append, h f (by simp), ih fun g hg => h g (by simp [hg])]; rfl
+
+theorem col_strKids (args : List Bytes) : (strKids args).commentsOneLine = true := by
+  induction args with
+  | nil => rfl
+  | cons a as ih => simp [strKids, PForest.commentsOneLine, isComment_string, ih]
+
+theorem col_stmt {l : Bytes} (args : List Bytes)
+    (h : isComment (some l) = false ∨ ∀ a ∈ args, a.contains 10 = false) : (stmt l args).commentsOneLine = true := by
+  simp only [stmt, PForest.commentsOneLine, Bool.and_true]
+  split
+  · rcases h with h | h
+    · rename_i hc; rw [h] at hc; cases hc
+    · rw [strKids_tokens]
+      simp only [Bool.not_eq_eq_eq_not, Bool.not_true, List.any_eq_false]
+      intro a ha; simpa using h a ha
+  · exact col_strKids args
+
+theorem col_block {l : Option Bytes} {kids : PForest} (h : isComment l = false) (hk : kids.commentsOneLine = true) :
+    (block l kids).commentsOneLine = true := by
+  simp [block, PForest.commentsOneLine, h, hk]
+
+theorem col_optStmt (name s : Bytes) : (optStmt name s).commentsOneLine = true := by
+  have : isComment (some (b "option")) = false := by decide +kernel
+  simp [optStmt, PForest.commentsOneLine, this, col_strKids]
+
+/-! data transforms -/
+
+theorem col_name_facts :
+    (dtFlagSteps.all fun n => !isComment (some n)) = true ∧
+    (dtTermOptions.all fun n => !isComment (some (dashToUnderscore n))) = true ∧
+    ([ArgStep.header, .parameter, .append, .prepend].all fun a => !isComment (some (lower a.pyName))) = true ∧
+    isComment (some (b "append")) = false ∧ isComment (some (b "prepend")) = false ∧
+    isComment (some (b "header")) = false ∧ isComment (some (b "parameter")) = false ∧
+    ([k "metadata", k "output", k "id"].all fun s => !isComment (some s)) = true ∧
+    (execEnable.all fun s => !isComment (some (dashToUnderscore (lower s)))) = true ∧
+    (gateLabels.all fun s => !isComment (some (lower s))) = true ∧
+    isComment (some (b "createthread_special")) = false ∧ isComment (some (b "createremotethread_special")) = false ∧
+    isComment (some (b "execute")) = false ∧ isComment (some (b "beacon_gate")) = false ∧
+    isComment (some (b "uri")) = false ∧ isComment (some (b "allocator")) = false ∧
+    ([b "server", b "output", b "client", b "http_get", b "http_post", b "stage", b "process_inject", b "dns_beacon",
+      b "http_beacon"].all fun s => !isComment (some s)) = true := by decide +kernel
+
+/-- the label of a `(name, value)` option is not the resolver comment -/
+def optColOK : DOpt → Bool
+  | .bare _ => true
+  | .pair n _ => !isComment (some n)
+
+theorem isComment_one (c : UInt8) : isComment (some [c]) = false := by
+  have h : ([c] : Bytes) ≠ b "comment_dns_resolver" := by
+    intro e
+    have := congrArg List.length e
+    rw [show (b "comment_dns_resolver").length = 20 from by decide +kernel] at this
+    simp at this
+  simp [isComment, h]
+
+theorem col_classify {o : DOpt} (h : optColOK o = true) :
+    (dtClassify o).1.commentsOneLine = true ∧ (dtClassify o).2.commentsOneLine = true := by
+  obtain ⟨hf, ht, _⟩ := col_name_facts
+  cases o with
+  | bare n =>
+    rw [dtClassify_bare_eq]
+    split
+    · rename_i hc
+      have := List.all_eq_true.mp hf n (by simpa using hc)
+      exact ⟨col_stmt [] (.inl (by simpa using this)), rfl⟩
+    · split
+      · rename_i hc
+        have := List.all_eq_true.mp ht n (by simpa using hc)
+        exact ⟨rfl, col_stmt [] (.inl (by simpa using this))⟩
+      · split
+        · exact ⟨col_stmt _ (.inl (isComment_one _)), rfl⟩
+        · exact ⟨rfl, rfl⟩
+  | pair n v =>
+    rw [dtClassify_pair_eq]
+    have hn : isComment (some n) = false := by simpa [optColOK] using h
+    split
+    · exact ⟨rfl, col_stmt _ (.inl hn)⟩
+    · exact ⟨col_stmt _ (.inl hn), rfl⟩
+
+theorem col_dtKids (ds : List DOpt) (h : ∀ o ∈ ds, optColOK o = true) : (dtKids ds).commentsOneLine = true := by
+  obtain ⟨h1, h2, h3⟩ := dtLabel_facts
+  have hs : (dtSteps ds).commentsOneLine = true := col_flatten _ (by
+    intro f hf; obtain ⟨o, ho, rfl⟩ := List.mem_map.mp hf; exact (col_classify (h o ho)).1)
+  have ht : (dtTerms ds).commentsOneLine = true := col_flatten _ (by
+    intro f hf; obtain ⟨o, ho, rfl⟩ := List.mem_map.mp hf; exact (col_classify (h o ho)).2)
+  simp [dtKids, PForest.commentsOneLine, h1, h2, h3, hs, ht]
+
+theorem toDOpt_colOK {t : TStep} {d : DOpt} (h : toDOpt t = some d) : optColOK d = true := by
+  obtain ⟨_, _, ha, _⟩ := col_name_facts
+  cases t with
+  | build s => cases h
+  | static s v => cases h
+  | en e => cases h; rfl
+  | arg a v =>
+    cases h
+    have := List.all_eq_true.mp ha a (by cases a <;> simp)
+    simpa [optColOK] using this
+
+theorem opts_colOK (l : List TStep) : ∀ o ∈ opts l, optColOK o = true := by
+  intro o ho
+  simp only [opts, List.mem_filterMap] at ho
+  obtain ⟨x, _, hd⟩ := ho
+  exact toDOpt_colOK hd
+
+theorem recoverOpt_colOK (r : RStep) : optColOK (recoverOpt r) = true := by
+  obtain ⟨_, _, _, h1, h2, _⟩ := col_name_facts
+  cases r <;> first | rfl | simp [recoverOpt, optColOK, h1, h2]
+
+theorem col_requestKids {allowed : List Bytes} {prog : List TStep} (h : wfProgram allowed prog = true)
+    (hb : ∀ s ∈ allowed, isComment (some s) = false) : (requestKids prog).commentsOneLine = true := by
+  obtain ⟨_, _, _, _, _, hh, hp, _⟩ := col_name_facts
+  unfold requestKids
+  simp only [col_append, Bool.and_eq_true]
+  refine ⟨?_, ?_, ?_⟩
+  · exact col_flatten _ (by intro f hf; obtain ⟨p, _, rfl⟩ := List.mem_map.mp hf; exact col_stmt _ (.inl hh))
+  · exact col_flatten _ (by intro f hf; obtain ⟨p, _, rfl⟩ := List.mem_map.mp hf; exact col_stmt _ (.inl hp))
+  · rw [reqRun_groups h]
+    simp only [wfProgram, Bool.and_eq_true, List.all_eq_true, List.contains_eq_mem, decide_eq_true_eq] at h
+    apply col_flatten
+    intro f hf
+    simp only [List.map_map, List.mem_map, Function.comp] at hf
+    obtain ⟨sg, hsg, rfl⟩ := hf
+    exact col_block (hb sg.1 (h.2 sg hsg).1) (col_dtKids _ (opts_colOK sg.2))
+
+/-! the chain -/
+
+def actCOL : Act → Bool
+  | .blkConst _ l _ => !isComment (some l)
+  | .perms l _ _ => !isComment (some l)
+  | .injT l => !isComment (some l)
+  | _ => true
+
+theorem table_col : actionTable.all (fun e => actCOL e.2.2) = true := by decide +kernel
+
+theorem actionOf_col (idx : Nat) (v : PVal) : actCOL (actionOf idx v) = true := by
+  unfold actionOf
+  split
+  · rename_i x g a hf
+    have := List.all_eq_true.mp table_col _ (List.mem_of_find?_eq_some hf)
+    split
+    · rfl
+    · exact this
+  · rfl
+
+theorem col_injKids (l : List (Bool × Bytes)) : (injKids l).commentsOneLine = true := by
+  obtain ⟨_, _, _, ha, hp, _⟩ := col_name_facts
+  unfold injKids
+  rw [col_append, Bool.and_eq_true]
+  constructor
+  · cases injLast true l with
+    | none => rfl
+    | some v => dsimp only; split; rfl; exact col_stmt _ (.inl hp)
+  · cases injLast false l with
+    | none => rfl
+    | some v => dsimp only; split; rfl; exact col_stmt _ (.inl ha)
+
+theorem col_execItem (s : Bytes) : ∃ f, execItem (some s) = .ok f ∧ f.commentsOneLine = true := by
+  obtain ⟨_, _, _, _, _, _, _, _, hen, _, hct, hcrt, _⟩ := col_name_facts
+  refine ⟨_, rfl, ?_⟩
+  rw [col_append, Bool.and_eq_true]
+  constructor
+  · split
+    · dsimp only
+      split
+      · exact col_stmt _ (.inl hct)
+      · split
+        · exact col_stmt _ (.inl hcrt)
+        · rfl
+    · rfl
+  · split
+    · rename_i hc
+      have := List.all_eq_true.mp hen s (by simpa using hc)
+      exact col_stmt [] (.inl (by simpa using this))
+    · rfl
+
+theorem col_execKids (l : List (Option Bytes)) (h : l.all wfExecItem = true) :
+    ∃ f, execKids l = .ok f ∧ f.commentsOneLine = true := by
+  induction l with
+  | nil => exact ⟨.nil, rfl, rfl⟩
+  | cons i is ih =>
+    simp only [List.all_cons, Bool.and_eq_true] at h
+    obtain ⟨r, hr, hnr⟩ := ih h.2
+    cases i with
+    | none => simp [wfExecItem] at h
+    | some s =>
+      obtain ⟨f, hf, hcf⟩ := col_execItem s
+      exact ⟨f ++ r, by simp only [execKids, hf, hr], by rw [col_append, hcf, hnr]; rfl⟩
+
+def COLInv (st : St) : Prop :=
+  (∀ kb, (st.f kb).commentsOneLine = true) ∧ ∀ o ∈ st.recover, optColOK o = true
+
+theorem col_app {st : St} (h : COLInv st) (kb : Blk) {g : PForest} (hg : g.commentsOneLine = true) :
+    COLInv (st.app kb g) := by
+  refine ⟨fun kb' => ?_, h.2⟩
+  simp only [St.app]
+  split
+  · rw [col_append, h.1 kb', hg]; rfl
+  · exact h.1 kb'
+
+theorem runAct_col (uris : List (Option Bytes)) (st st' : St) (v : PVal) (a : Act) (ha : actCOL a = true)
+    (hw : wfAct a v = true) (hi : COLInv st) (hr : runAct uris st v a = .ok st') : COLInv st' := by
+  obtain ⟨_, _, _, _, _, _, _, hbn, _, hgl, _, _, hex, hbg, huri, halloc, _⟩ := col_name_facts
+  cases a with
+  | pass => cases hr; exact hi
+  | profOpt name =>
+    simp only [runAct] at hr
+    split at hr
+    · cases hr; exact col_app hi _ (col_optStmt _ _)
+    · cases hr
+  | blkOpt kb l =>
+    simp only [runAct] at hr
+    split at hr
+    · rename_i s hs
+      cases hr
+      exact col_app hi _ (col_stmt _ (.inr (by intro a ha; simp at ha; subst ha; exact vts_noLF hs)))
+    · cases hr
+  | blkConst kb l t => cases hr; exact col_app hi _ (col_stmt _ (.inl (by simpa [actCOL] using ha)))
+  | uris =>
+    simp only [runAct] at hr
+    split at hr
+    · cases hr; exact hi
+    · cases hr; exact col_app hi _ (col_stmt _ (.inl huri))
+  | recover =>
+    cases v with
+    | recover l =>
+      cases hr
+      refine ⟨hi.1, ?_⟩
+      intro o ho
+      obtain ⟨r, _, rfl⟩ := List.mem_map.mp ho
+      exact recoverOpt_colOK r
+    | _ => simp [wfAct] at hw
+  | request c =>
+    have hb := List.all_eq_true.mp hbn
+    cases v with
+    | transform prog =>
+      cases hr
+      cases c with
+      | getClient =>
+        exact col_app hi _ (col_requestKids (allowed := [k "metadata", k "output"]) (by simpa [wfAct] using hw)
+          (fun s hs => by have := hb s (by simp at hs ⊢; rcases hs with rfl | rfl <;> simp); simpa using this))
+      | postClient =>
+        exact col_app hi _ (col_requestKids (allowed := [k "id", k "output"]) (by simpa [wfAct] using hw)
+          (fun s hs => by have := hb s (by simp at hs ⊢; rcases hs with rfl | rfl <;> simp); simpa using this))
+      | _ =>
+        exact col_app hi _ (col_requestKids (allowed := [k "id", k "output"]) (by simpa [wfAct] using hw)
+          (fun s hs => by have := hb s (by simp at hs ⊢; rcases hs with rfl | rfl <;> simp); simpa using this))
+    | _ => cases c <;> simp [wfAct] at hw
+  | perms l t f =>
+    have hl : isComment (some l) = false := by simpa [actCOL] using ha
+    simp only [runAct] at hr
+    split at hr
+    · cases hr; exact col_app hi _ (col_stmt _ (.inl hl))
+    · split at hr
+      · cases hr; exact col_app hi _ (col_stmt _ (.inl hl))
+      · cases hr; exact hi
+  | injT l =>
+    have hl : isComment (some l) = false := by simpa [actCOL] using ha
+    cases v with
+    | inj lst =>
+      simp only [runAct] at hr
+      split at hr
+      · cases hr; exact hi
+      · cases hr; exact col_app hi _ (col_block hl (col_injKids lst))
+    | _ => simp [wfAct] at hw
+  | execute =>
+    cases v with
+    | execute lst =>
+      obtain ⟨f, hf, hnf⟩ := col_execKids lst (by simpa [wfAct] using hw)
+      simp only [runAct, hf] at hr
+      split at hr
+      · cases hr; exact hi
+      · cases hr; exact col_app hi _ (col_block hex hnf)
+    | _ => simp [wfAct] at hw
+  | allocator => cases hr; exact col_app hi _ (col_stmt _ (.inl halloc))
+  | gate =>
+    cases v with
+    | gate lst =>
+      cases hr
+      refine col_app hi _ (col_block hbg (col_flatten _ ?_))
+      intro f hf
+      obtain ⟨s, hs, rfl⟩ := List.mem_map.mp hf
+      have hm : s ∈ gateLabels := by
+        have := List.all_eq_true.mp (by simpa [wfAct] using hw : lst.all gateLabels.contains = true) s hs
+        simpa using this
+      have := List.all_eq_true.mp hgl s hm
+      exact col_stmt [] (.inl (by simpa using this))
+    | _ => simp [wfAct] at hw
+
+theorem runSettings_col (uris : List (Option Bytes)) (cfg : List (Nat × PVal)) :
+    ∀ st st', cfg.all wfSetting = true → COLInv st → runSettings uris st cfg = .ok st' → COLInv st' := by
+  induction cfg with
+  | nil => intro st st' _ hi hr; cases hr; exact hi
+  | cons kv rest ih =>
+    intro st st' hw hi hr
+    simp only [List.all_cons, Bool.and_eq_true] at hw
+    simp only [runSettings] at hr
+    cases h1 : stepOne uris st kv with
+    | error e => simp [h1] at hr
+    | ok st1 =>
+      simp only [h1] at hr
+      exact ih st1 st' hw.2 (runAct_col uris st st1 kv.2 _ (actionOf_col _ _) (wfSetting_act hw.1) hi h1) hr
+
+theorem col_addNonEmpty {parent kids : PForest} {l : Bytes} (hl : isComment (some l) = false)
+    (hp : parent.commentsOneLine = true) (hk : kids.commentsOneLine = true) :
+    (addNonEmpty parent l kids).commentsOneLine = true := by
+  unfold addNonEmpty
+  split
+  · exact hp
+  · rw [col_append, hp, col_block hl hk]; rfl
+
+theorem finalize_col {st : St} (hi : COLInv st) : (finalize st).kids.commentsOneLine = true := by
+  obtain ⟨_, _, _, _, _, _, _, _, _, _, _, _, _, _, _, _, hfin⟩ := col_name_facts
+  have hf : ∀ s ∈ [b "server", b "output", b "client", b "http_get", b "http_post", b "stage", b "process_inject",
+      b "dns_beacon", b "http_beacon"], isComment (some s) = false := by
+    intro s hs; have := List.all_eq_true.mp hfin s hs; simpa using this
+  unfold finalize
+  dsimp only
+  have hg1 : (if st.recover.isEmpty then st.f .httpGet
+      else addNonEmpty (st.f .httpGet) (b "server") (block (some (b "output")) (dtKids st.recover))).commentsOneLine = true := by
+    split
+    · exact hi.1 .httpGet
+    · exact col_addNonEmpty (hf _ (by simp)) (hi.1 .httpGet) (col_block (hf _ (by simp)) (col_dtKids _ hi.2))
+  exact col_addNonEmpty (hf _ (by simp)) (col_addNonEmpty (hf _ (by simp)) (col_addNonEmpty (hf _ (by simp))
+    (col_addNonEmpty (hf _ (by simp)) (col_addNonEmpty (hf _ (by simp))
+    (col_addNonEmpty (hf _ (by simp)) (hi.1 .profile) (col_addNonEmpty (hf _ (by simp)) hg1 (hi.1 .getClient)))
+    (col_addNonEmpty (hf _ (by simp)) (hi.1 .httpPost) (hi.1 .postClient))) (hi.1 .stage)) (hi.1 .procInj)) (hi.1 .dns))
+    (hi.1 .httpBeacon)
+
 end C13
